@@ -2,7 +2,7 @@
 
 Tie: the propagators are the C02 model (`propagateField`, window kernel regenerated; driver op c02.propagate_dft) and the C09 model
 (`propagateFft`; driver op c09.propagate_fft), `normalize_power` is Model/Energy.lean `normalizePower` (factor regenerated; driver op
-c05.normalize); run at complex doubles against the real lentil.propagate_dft / propagate_fft / Wavefront.intensity /
+c05.normalize), `Wavefront.insert(out, weight)` is the C07 loop model `viewRun Gen.insertWiring` on the C02 model's fields (op c05.insert_weighted); run at complex doubles against the real lentil.propagate_dft / propagate_fft / Wavefront.intensity /
 util.normalize_power on commensurate samplings. C05 has no hand model of a propagator of its own: the theorems of Props/C05 are about
 those models (`propagateWindow` in Lemmas/Energy.lean is a proof device defining the plane function `fieldAt`, to which the C02
 model's samples are proved equal).
@@ -18,15 +18,15 @@ LEVEL_TEXT = ('Lean 4 theorems at ℂ/ℝ, stated over the C02 propagation model
               'intensity is ≤ Σ|total input field|², with equality over the whole period; for two calls on tilt-free fields with nested evaluated windows the first call\'s energy over any sample set is ≤ the second\'s (propagate_dft_nested_windows), and as one chain 0 ≤ E(W₁) ≤ E(W₂) ≤ input power inside one period (propagate_dft_nested_windows_le_input_power), nested sample sets of one call are monotone; intensity ≥ 0; a '
               'tilted field, several fields sharing one tilt, or fields with different tilts (against the power of the coherently summed ramped inputs) keep their energy over a covered period, and any smaller set of samples of that period captures a non-negative energy no larger (common_tilt_window_energy_le, multi_tilt_window_energy_le); '
               'through C09 fft_eq_propagate_dft (which contains fftshift∘fft2(ortho)∘ifftshift = centred unitary dft2, C09 fft_path_is_unitary_dft_complex — cited, not restated here) the whole FFT propagator (grid shape, padding or scratch, crop; any number of '
-              'fields; isotropic dx·du, or — propagate_fft_energy_consistent — a possibly non-square grid consistent with both samplings, S0·dx0·du0 = S1·dx1·du1) returns at most the input power and exactly it on the full grid (both clauses instantiated on accepted calls by `example`s: plain 4×4 call; explicit shape, dirty scratch, non-square consistent grid); normalize_power (factor regenerated from util.py) '
+              'fields; isotropic dx·du, or — propagate_fft_energy_consistent — a possibly non-square grid consistent with both samplings, S0·dx0·du0 = S1·dx1·du1) returns at most the input power and exactly it on the full grid (both clauses instantiated on accepted calls by `example`s: plain 4×4 call; explicit shape, dirty scratch, non-square consistent grid); normalize_power (factor and default target regenerated from util.py; the call that omits the target yields unit power: normalize_power_default_power) '
               'yields power p ≥ 0 for every input of non-zero power at every input scale, a pupil images to its amplitude·mask power (through C07 Plane.multiply), and as one statement a pupil whose amplitude is normalize_power(a, p) images to total exactly p (normalized_pupil_images_to_p: monolithic mask, propagate_dft, full period; normalized_pupil_images_to_p_fft: the same pupil through the C09 model of propagate_fft, whole grid returned, isotropic or grid-consistent sampling). The propagate_dft correspondence runs the C02 model itself (Gen.dftWindow, Gen.maskShape/Shift, dftAlpha) '
-              'at doubles, the propagate_fft correspondence runs the C09 model propagateFft (generated grid shape, guards, scratch regions); normalize_power runs Model/Energy.lean.')
+              'at doubles, the propagate_fft correspondence runs the C09 model propagateFft (generated grid shape, guards, scratch regions); normalize_power runs Model/Energy.lean. Wavefront.insert(out, weight) of a propagated wavefront (wavefront_insert_weighted_energy): the loop as regenerated from wavefront.py (Gen.insertWiring: reduce, intensity, weight passed on) and field.insert\'s regenerated accumulation statement add weight·|Σ fields|² to every sample of any accumulator and weight·Σ|input|² in total over a covered period; the op c05.insert_weighted runs that loop on the C02 model\'s fields against the real call.')
 LEVEL_NOTE = ('Trusted, stated plainly: the FFT clauses rest on C09\'s model of _fft2 (generated index maps, fft2 contract): that NumPy\'s '
               'fft2(norm="ortho") computes the unitary DFT sum, and that fftshift/ifftshift are the stated index maps, is assumed there and only observed '
               'differentially. Wavefront.intensity = |Wavefront.field|² and reduce keeping the total are C07/C06 theorems, cited not '
               'restated; for differently tilted fields the reference power is that of the coherent sum of the ramped inputs (multi_tilt_period_energy). np.dot/np.exp as in C01; floating-point rounding is not modelled.')
 TECHNIQUE = 'Lean 4 proof (roots-of-unity orthogonality, Finset sums) over a generic executable model + differential correspondence'
-GEN = ['FourierWiring', 'Window', 'Extent', 'NormalizePower', 'FftScratch', 'FieldDispatch', 'FieldIdx', 'FieldMerge', 'Helper', 'Helper20', 'Hex', 'Mesh', 'PlaneHandover', 'PlanePhase', 'PlanePx', 'PlaneType', 'PropagateMeta', 'TiltFit', 'Util', 'FieldAccum']
+GEN = ['FourierWiring', 'Window', 'Extent', 'NormalizePower', 'FftScratch', 'FieldDispatch', 'FieldIdx', 'FieldMerge', 'Helper', 'Helper20', 'Hex', 'Mesh', 'PlaneHandover', 'PlanePhase', 'PlanePx', 'PlaneType', 'PropagateMeta', 'TiltFit', 'Util', 'FieldAccum', 'WfViews']
 OPS = ['C01', 'C05', 'C02', 'C09']
 RULE = ('cases: wavefronts of shape 1..5 x 1..5 (one full field, or 2-3 sub-fields with offsets, possibly overlapping), complex '
         'Gaussian data, oversample 1..4, full period K x L = (shape·os) with K ≥ rows, L ≥ cols drawn independently per axis; '
@@ -36,10 +36,11 @@ RULE = ('cases: wavefronts of shape 1..5 x 1..5 (one full field, or 2-3 sub-fiel
         'non-trivial = not (square, isotropic, single field) i.e. outside what the test-suite samples A ≈5 % sample (search tier: a leading block of 150 + padded FFT grids of 2048², 4096×1024, 1024×4100 checked by their totals) comes from an extremes stream: normalize_power targets within 1e-7 … 3e-5 relative or 1e-8 absolute of the present power at amplitude scales 1e-9 … 1e3, field amplitudes at 1e-9 / 1e9, wavelengths / distances / pixel sizes from 1e-9 to 1e6 with near-equal per-axis dx, 33–47 fields per wavefront; the quick tier runs one 4096×1024 FFT grid; all tolerances are relative to Σ|f_k|² resp. the target power. About 10 % of the cases are segmented pupils (3-D mask, 2-3 disjoint segments) on wider-than-tall and taller-than-wide arrays, amplitude normalised to p, imaged over one period by both propagators and judged against the plane\'s amplitude·mask power (oracle only). One FFT case in six asks for a shape larger than the grid allows or passes a scratch smaller than the grid (both must raise ValueError, as the C09 model does). Overlapping fields with different sub-pixel tilts are generated and judged against the power of the coherently summed ramped inputs; one-sample windows are generated for multi-field wavefronts too.')
 TRUSTED = ['np.fft.fft2(norm="ortho") is the unitary DFT with origin at index 0; np.fft.fftshift / ifftshift follow their documented '
            'index maps (modelled in C09, observed through the c09.propagate_fft correspondence)',
-           'np.dot / np.exp / np.abs / np.sum as written in the model; Wavefront.intensity merges coincident output fields (C06)']
+           'np.dot / np.exp / np.abs / np.sum as written in the model; Wavefront.intensity merges coincident output fields (C06)',
+           'lentil.field.reduce / field.insert as modelled in C06/C07 (Model/Plane.lean viewRun, insertArr): Wavefront.insert\'s loop is their composition, wiring regenerated (Gen.insertWiring), observed by c05.insert_weighted']
 UNPROVEN = ['"images to total p" is proved for a monolithic pupil on the fresh wavefront through propagate_dft (normalized_pupil_images_to_p, amplitude vanishing outside the mask) and through propagate_fft when the whole grid is returned (normalized_pupil_images_to_p_fft); for '
             'segmented masks it is the composition with C03 segmented = monolithic, not restated; evaluated by the oracle',
-            'Wavefront.insert(out, weight) = out + weight·intensity is evaluated by the oracle only',
+            'Wavefront.insert(out, weight): proved for tilt-free fields of propagate_dft into any accumulator of the output shape (wavefront_insert_weighted_energy: every sample gains weight·|Σ fields|², over a covered period the array gains weight·input power) and run by the op c05.insert_weighted; for tilted fields and for propagate_fft outputs it is the oracle only',
             'propagate_fft_energy(_consistent) needs isotropic dx·du or a grid consistent with both samplings (C09: the FFT propagator reports one '
             'wavelength for two grids otherwise — known finding D9)']
 ASSUMPTIONS = ['generator scope: sub-fields are never one element off the origin and pupil supports / segment boxes span more than one pixel — lentil treats a one-element Field as a broadcast constant, not a pixel (C06 documented rule; open known finding KF-C07-one-pixel-segment)',
@@ -458,6 +459,10 @@ def requests(c, io):
                  'wl': fbits(p['wl']), 'z': fbits(p['z']), 'os': os_, 'shape': list(shape), 'prop_shape': list(prop)}
             if box is not None: r['mask'] = [box[0], box[1] - 1, box[2], box[3] - 1]
             reqs.append(r)
+        if 'weighted' in io:
+            # Wavefront.insert(acc, weight): the C02 model's fields of the full call accumulated by the C07 model wfInsert (regenerated
+            # loop wiring Gen.insertWiring + field.insert's accumulation statement) into the same constant accumulator
+            reqs.append({**reqs[0], 'op': 'c05.insert_weighted', 'base': fbits(io['weighted']['base']), 'weight': fbits(c['weight'])})
         return reqs
     if c['kind'] == 'fft':
         # the C09 model of propagate_fft itself (generated _fft_shape / guards / scratch regions, padding, _fft2, crop)
@@ -474,7 +479,7 @@ def requests(c, io):
         return reqs
     im = c['amp_im'] if c['amp_im'] is not None else [0.0] * len(c['amp'])
     return [{'op': 'c05.normalize', 'shape': c['wshape'], 're': [fbits(x) for x in c['amp']], 'im': [fbits(x) for x in im],
-             'power': fbits(c['power'])}]
+             'power': fbits(c['power']), **({'default': True} if c.get('default_power') else {})}]
 
 def _power(c):
     """Σ|field|² of the input wavefront: coherent sum of the embeddings (independent of lentil)"""
@@ -518,6 +523,15 @@ def compare(c, io, mo):
             if got.shape != want.shape: return f'{name}: intensity shape {got.shape}, model canvas {want.shape}'
             d = float(np.max(np.abs(got - want)))
             if not d <= tol: return f'{name}: max |impl - model| intensity = {d:.3e} > {tol:.1e}'
+        if 'weighted' in io:
+            m = mo[len(_calls(c))]['acc']
+            base = io['weighted']['base']; w = c['weight']
+            if any(bitsf(x) != 0.0 for x in m['im']): return 'Wavefront.insert model: the accumulator acquired an imaginary part'
+            want = np.array([bitsf(x) for x in m['re']]).reshape(m['shape']) - base
+            got = _arr(io['weighted'])
+            if got.shape != want.shape: return f'Wavefront.insert(weight): shape {got.shape}, model {want.shape}'
+            d = float(np.max(np.abs(got - want)))
+            if not d <= tol * max(1.0, w) + 1e-14 * base * max(1.0, w): return f'Wavefront.insert(weight={w}): max |impl - model| = {d:.3e}'
         return None
     if c['kind'] == 'fft':
         tol = TOL * _scale(c)
